@@ -194,7 +194,9 @@ func main() {
 	schemes := []string{"", "http://", "https://", "HTTP://", "tg://", "ftp://", "//"}
 	hosts := append(append([]string{}, reserved...), "T.ME", "t.me.", "t.me.evil.com", "evilt.me", "localhost", "")
 	ports := []string{"", ":443", ":80", ":"}
-	segA := []string{"", "BotFather", "joinchat", "AbC_123", "abc_123", "BOTFATHER", "Юзер", "ÜNAL", "a-b", "%41bc", "юзер", "a b", "..", "{username}"}
+	segA := []string{"", "BotFather", "joinchat", "AbC_123", "abc_123", "BOTFATHER", "Юзер", "ÜNAL", "a-b", "%41bc", "юзер", "a b", "..", "{username}",
+		// escaped '?', '#' and '%' (a second round of unescaping would cut or change them), an escape of an escape
+		"Abc%3Fdef", "AbC%23dEf", "100%25", "X%2541"}
 	tails := []string{"", "?start=1", "#f", "?a=b#c", "?start=a;b", "?x=%zz"}
 	maxSeg := 2
 	if run.Thorough() {
@@ -272,6 +274,34 @@ func main() {
 		}
 	}
 	sched.MapPerm = 0
+	// the statement gives one mapping for a Telegram-owned host "written with an http(s) scheme ..., or with no
+	// scheme at all": whatever a path resolves to with https:// it resolves to without a scheme and with http://
+	// (this also holds the forms whose value the reference does not define - percent-escapes, spaces - to one
+	// reading of them instead of two)
+	nSchemeCmp := 0
+	for _, h := range reserved {
+		for _, segs := range paths {
+			for _, trail := range []bool{false, true} {
+				for _, tail := range tails {
+					base := link{"https://", h, "", segs, trail, tail}
+					bk, bv, _, _, _ := observe(base.String())
+					for _, sc := range []string{"", "http://"} {
+						l := link{sc, h, "", segs, trail, tail}
+						if sc == "" && len(segs) == 0 && !trail {
+							continue // a bare host without a scheme has no path at all
+						}
+						k, v, _, _, _ := observe(l.String())
+						nSchemeCmp++
+						if k != bk || v != bv {
+							run.Violation("scheme-dependent|"+class(l), fmt.Sprintf("Resolve(%q) = (%s,%q) but Resolve(%q) = (%s,%q)", l.String(), k, v, base.String(), bk, bv),
+								map[string]any{"Link": l.String(), "Perm": 0})
+						}
+					}
+				}
+			}
+		}
+	}
+	run.Set("scheme_independence_comparisons", nSchemeCmp)
 	// history independence: the same links resolved again in reverse order must give the same answers (a result
 	// that depends on what was resolved before - a cache under too small a key, a reused buffer - shows up here)
 	first := make(map[string][2]string, len(allLinks))
